@@ -77,6 +77,7 @@ type sim struct {
 	sentOK             []string
 	appN               int
 	lossDuringRecovery bool
+	busyWriter         func() bool // drawn per flush: the writer cannot take a frame at that moment
 }
 
 type stepCtx struct {
@@ -266,6 +267,17 @@ func (s *sim) deliver(raw []byte, faithful bool) rig.StepResult {
 }
 
 func (s *sim) flush() {
+	if s.busyWriter != nil && s.r.V.IsConnected() && s.busyWriter() {
+		// the run loop handles the message event while the writer is still busy with the previous
+		// frame: whatever is queued stays queued and goes out at the next opportunity
+		ctx := s.ctxFor("flush", nil, false)
+		st, took := s.r.FlushBusy()
+		if took {
+			s.logf("flush (the connection's writer is busy)")
+			s.observe(st, ctx)
+			s.react(st)
+		}
+	}
 	ctx := s.ctxFor("flush", nil, false)
 	st, took := s.r.Flush()
 	if took {
